@@ -16,9 +16,9 @@ class SwapPartitionHandler(CurrentTokenBaseHandler):
             isinstance(token, Function)
             and token.get_name().lower() == "swap_partitions_between_tables"
         ):
-            _, parenthesis = token.tokens
-            _, identifier_list, _ = parenthesis.tokens
-            identifiers = list(identifier_list.get_identifiers())
+            identifiers = list(token.get_parameters())
+            if len(identifiers) != 4:
+                return
             holder.add_read(
                 SqlParseTable(escape_identifier_name(identifiers[0].normalized))
             )
